@@ -118,6 +118,9 @@ fn get_escaped_branchless_u32(prev_escaped: &mut u32, backslash: u32) -> u32 {
 }
 
 // convert $int to u32 for JsonPointer.
+// The max nesting depth of arrays and objects, the same as in the serde deserializer.
+const MAX_DEPTH: usize = 255;
+
 macro_rules! perr {
     ($self:ident, $err:expr) => {{
         Err($self.error($err))
@@ -217,6 +220,7 @@ pub struct Parser<R> {
     error_index: usize,   // mark the error position
     nospace_bits: u64,    // SIMD marked nospace bitmap
     nospace_start: isize, // the start position of nospace_bits
+    depth: usize,         // the nesting depth of the recursive parsing and skipping
     pub(crate) cfg: DeserializeCfg,
 }
 
@@ -246,8 +250,22 @@ where
             error_index: usize::MAX,
             nospace_bits: 0,
             nospace_start: -128,
+            depth: 0,
             cfg: DeserializeCfg::default(),
         }
+    }
+
+    /// Run `f` one nesting level deeper. The recursion of the DOM parser and of the validating
+    /// skipper is bounded, a deeply nested JSON is an error instead of a stack overflow.
+    #[inline(always)]
+    fn nested<T>(&mut self, f: impl FnOnce(&mut Self) -> Result<T>) -> Result<T> {
+        if self.depth >= MAX_DEPTH {
+            return perr!(self, RecursionLimitExceeded);
+        }
+        self.depth += 1;
+        let ret = f(self);
+        self.depth -= 1;
+        ret
     }
 
     pub fn offset(&self) -> usize {
@@ -389,8 +407,8 @@ where
             match first {
                 Some(c @ b'-' | c @ b'0'..=b'9') => self.parse_number_inplace(c, vis),
                 Some(b'"') => self.parse_string_inplace(vis),
-                Some(b'{') => self.parse_object(vis),
-                Some(b'[') => self.parse_array(vis),
+                Some(b'{') => self.nested(|p| p.parse_object(vis)),
+                Some(b'[') => self.nested(|p| p.parse_array(vis)),
                 Some(first) => self.parse_literal_visit(first, vis),
                 None => perr!(self, EofWhileParsing),
             }?;
@@ -539,8 +557,8 @@ where
         match self.skip_space() {
             Some(c @ b'-' | c @ b'0'..=b'9') => self.parse_number_inplace(c, visitor),
             Some(b'"') => self.parse_string_inplace(visitor),
-            Some(b'{') => self.parse_object(visitor),
-            Some(b'[') => self.parse_array(visitor),
+            Some(b'{') => self.nested(|p| p.parse_object(visitor)),
+            Some(b'[') => self.nested(|p| p.parse_array(visitor)),
             Some(first) => self.parse_literal_visit(first, visitor),
             None => return perr!(self, EofWhileParsing),
         }?;
@@ -697,8 +715,8 @@ where
         match self.skip_space() {
             Some(c @ b'-' | c @ b'0'..=b'9') => self.parse_number_visit(c, vis),
             Some(b'"') => self.parse_string_owned(vis, strbuf),
-            Some(b'{') => self.parse_object2(vis, strbuf),
-            Some(b'[') => self.parse_array2(vis, strbuf),
+            Some(b'{') => self.nested(|p| p.parse_object2(vis, strbuf)),
+            Some(b'[') => self.nested(|p| p.parse_array2(vis, strbuf)),
             Some(first) => self.parse_literal_visit(first, vis),
             None => perr!(self, EofWhileParsing),
         }
@@ -753,8 +771,8 @@ where
             match first {
                 Some(c @ b'-' | c @ b'0'..=b'9') => self.parse_number_visit(c, visitor),
                 Some(b'"') => self.parse_string_owned(visitor, strbuf),
-                Some(b'{') => self.parse_object2(visitor, strbuf),
-                Some(b'[') => self.parse_array2(visitor, strbuf),
+                Some(b'{') => self.nested(|p| p.parse_object2(visitor, strbuf)),
+                Some(b'[') => self.nested(|p| p.parse_array2(visitor, strbuf)),
                 Some(first) => self.parse_literal_visit(first, visitor),
                 None => perr!(self, EofWhileParsing),
             }?;
@@ -1562,8 +1580,8 @@ where
                 status = self.skip_string()?;
                 Ok(())
             }
-            Some(b'{') => self.skip_object(),
-            Some(b'[') => self.skip_array(),
+            Some(b'{') => self.nested(|p| p.skip_object()),
+            Some(b'[') => self.nested(|p| p.skip_array()),
             Some(b't') => self.parse_literal("rue"),
             Some(b'f') => self.parse_literal("alse"),
             Some(b'n') => self.parse_literal("ull"),
